@@ -223,7 +223,15 @@ def run(check, repo: Repo) -> None:
         return outs, md, nm, skip
     s1, s2 = loop_sig(p2c), loop_sig(c2p)
     want_sig = (["range(1, max_order + 1)", "range(0, n + 2)"], ["2 * s - n - 1"], ["f'C{n}{m}'"], ["m < 0"])
-    check.decide(s1 == s2 == want_sig, "C12-R3", "both conversions enumerate (n, m) with the same generator m = 2s−n−1 ≥ 0", str(s1), mod.line(p2c),
+
+    def split_skips(sig, src_names):
+        """(signature without membership skips, is the conversion SPARSE — does it leave out labels that are absent from its input?)"""
+        outs, md, nm, skip = sig
+        member = [t for t in skip if any(t.endswith(f" not in {nm_}") for nm_ in src_names)]
+        return (outs, md, nm, [t for t in skip if t not in member]), bool(member)
+    s1n, p2c_sparse = split_skips(s1, ("polar",))
+    s2n, _c2p_sparse = split_skips(s2, ("cart",))
+    check.decide(s1n == s2n == want_sig, "C12-R3", "both conversions enumerate (n, m) with the same generator m = 2s−n−1 ≥ 0", str(s1), mod.line(p2c),
                  fail_detail=f"index generators differ or deviate from the scheme: {s1} vs {s2}")
     stores = {unparse(n.targets[0]): unparse(n.value) for n in ast.walk(p2c) if isinstance(n, ast.Assign) and isinstance(n.targets[0], ast.Subscript)}
     env_names = {k: [unparse(x) for x in definitions(p2c, k) if isinstance(x, ast.AST)] for k in ("phi", "C")}
@@ -249,10 +257,35 @@ def run(check, repo: Repo) -> None:
     # merge
     _, mg = repo.func(f"{CP}:merge_aberration_coefficients")
     txt = unparse(mg)
-    ok = "polar_to_cartesian_aberrations(init_coefs_polar)" in txt and "cartesian_to_polar_aberrations(updated_coefs_cartesian)" in txt \
-        and "updated_coefs_cartesian[k] = updated_coefs_cartesian[k] + v" in txt
-    check.decide(ok, "C12-R3", "merge: deltas are added in the Cartesian representation and converted back", "", mod.line(mg),
-                 fail_detail="merge does not convert → add → convert back")
+    ok = "polar_to_cartesian_aberrations(init_coefs_polar)" in txt and "cartesian_to_polar_aberrations(updated_coefs_cartesian)" in txt
+    # how the deltas are folded in.  Two sites cooperate: a merge that only visits the keys of the converted initial guess drops every fitted component
+    # the guess does not contain — unless the polar→Cartesian conversion is dense (emits every label up to max_order).
+    form = None
+    for n_ in walk_no_nested_defs(mg):
+        if isinstance(n_, ast.For) and "delta_coefs_cartesian" in unparse(n_.iter):
+            body_txt = [unparse(x) for x in n_.body]
+            ifs = [x for x in n_.body if isinstance(x, ast.If) and " in updated_coefs_cartesian" in unparse(x.test)]
+            adds = any("updated_coefs_cartesian[k] + v" in t or "v + updated_coefs_cartesian[k]" in t or ("updated_coefs_cartesian.get(k" in t and "+ v" in t) or "+= v" in t for t in body_txt)
+            if not adds:
+                form = None
+            elif ifs and not ifs[0].orelse and "not in" not in unparse(ifs[0].test):
+                form = "over-delta-no-insert"
+            else:
+                form = "over-delta-insert"
+        elif isinstance(n_, ast.Assign) and isinstance(n_.value, ast.DictComp) and dotted(n_.targets[0]) == "updated_coefs_cartesian":
+            it_ = unparse(n_.value.generators[0].iter)
+            vt_ = unparse(n_.value.value)
+            if it_.startswith("updated_coefs_cartesian") and "delta_coefs_cartesian.get(k" in vt_ and "+" in vt_:
+                form = "over-init"
+    if not ok or form is None:
+        check.violated("C12-R3", "merge: deltas are added in the Cartesian representation and converted back", "merge does not convert → add → convert back", mod.line(mg))
+    elif form == "over-delta-insert" or not p2c_sparse:
+        check.holds("C12-R3", "merge: deltas are added in the Cartesian representation and converted back", f"{form}; polar→Cartesian is {'sparse' if p2c_sparse else 'dense'}", mod.line(mg))
+    else:
+        check.violated("C12-R3", "merge: deltas are added in the Cartesian representation and converted back",
+                       f"the merge visits only the keys of the converted initial guess ({form}) while polar_to_cartesian_aberrations leaves out labels that are absent from its input: a "
+                       f"fitted component the initial guess does not contain (e.g. C21_a on top of a defocus-only guess) is silently dropped — the merged surface is not the sum",
+                       mod.line(mg), definite=True)
 
     # ---- R5 defocus alias --------------------------------------------------------------------------
     n_sites = 0
